@@ -56,7 +56,7 @@ def run(tier, out: Outcome):
     if not sens.violated:
         raise ToolError("self-test failed: EnrichWorker with the pre-repair deviation satisfies every invariant")
     rng = random.Random(seed() * 4447 + 11)
-    scs = [schedule(rng, i + 1) for i in range(60 if quick else 1500)]
+    scs = [schedule(rng, i + 1) for i in range(int(os.environ.get("VERIF_WORKER_SCHEDULES", 60 if quick else 1500)))]
     wd = workdir("worker")
     jobs = 8
     chunks = [scs[i::jobs] for i in range(jobs) if scs[i::jobs]]
